@@ -27,6 +27,8 @@ def scen_menu(quick):
     menu.append(lambda: M.scenario('o0 <b>', [], [A.ex('two-rows')], outline=True))
     menu.append(lambda: M.scenario('o2 <a>', [S('g <b>')], [A.ex('one-row', True), A.ex('two-rows')], outline=True))
     menu.append(lambda: M.scenario('o3', [S('g')], [A.ex('no-table'), A.ex('one-row'), A.ex('header-only', True)], outline=True))
+    # two tables with different headers that share a row of identical values; placeholders in the name
+    menu.append(lambda: M.scenario('o6 <a>-<b>', [S('g <a> <b>')], [M.examples('e', [['a', 'b'], ['1', '2']]), M.examples('e', [['b', 'a'], ['1', '2'], ['2', '1']])], outline=True))
     if not quick:
         menu.append(lambda: M.scenario('o4 <a>', [S('g'), S('h <a>')], [A.ex('two-rows', True), A.ex('two-rows')], outline=True))
         menu.append(lambda: M.scenario('o5', [], [A.ex('no-table')], outline=True))
@@ -95,19 +97,24 @@ def check_ast(ast, acc, case):
     if got[0] != 'ok':
         acc.violation('compile-exception', case, 'Compiler.compile raised ' + got[1])
         return
-    pk = got[1]
     want = expected_count(ast)
     if want:
         acc.nontrivial += 1
     acc.outcomes[min(len(want), 9)] += 1
     acc.states.add(('pickles', min(len(want), 12)))
     acc.trans.add(tuple(len(w) for w in want)[:8])
-    ids = [tuple(p.get('astNodeIds', ())) for p in pk]
-    if ids != want:
-        acc.violation('pickle-sources', case, 'pickles do not correspond one-to-one, in order, to scenarios / example rows',
-                      observed=ids, expected=want)
-        return
-    A.compare(acc, case, 'pickle-header', 'pickle name / uri / language / source ids', P.p_c06(pk), P.p_c06(exp))
+    for route, res in (('fresh compiler', got), ('compiler that compiled other documents before', P.compile_reused(ast))):
+        if res[0] != 'ok':
+            acc.violation('compile-exception', case, 'Compiler.compile (%s) raised %s' % (route, res[1]))
+            return
+        pk = res[1]
+        ids = [tuple(p.get('astNodeIds', ())) for p in pk]
+        if ids != want:
+            acc.violation('pickle-sources', case, '%s: pickles do not correspond one-to-one, in order, to scenarios / example rows' % route,
+                          observed=ids, expected=want)
+            return
+        if not A.compare(acc, case, 'pickle-header', route + ': pickle name / uri / language / source ids', P.p_c06(pk), P.p_c06(exp)):
+            return
 
 
 def run(ctx):
